@@ -65,7 +65,7 @@ Section PComplete.
     intros t st ctx T Hc Hm Tb I Hw HwT Hk.
     destruct (Hc st ctx T Hm Tb I Hw HwT Hk) as [t' [st' Hr]].
     destruct (check_term_gen_psound ts fs W t true st ctx T t' st' Hm (ctx_wf_names_ok _ Hw)
-                (wf_ty_names_ok ts fs W _ HwT) Tb I Hr) as [_ [I' [S G]]].
+                (wf_ty_names_ok ts fs W _ HwT) Tb I Hr) as [_ [I' [S [G _]]]].
     eauto 10.
   Qed.
 
@@ -250,7 +250,7 @@ Section PComplete.
       assert (Hwc' : ctx_wf ts (ctx ++ zip_names (pc_names cl) sg) = true)
         by (apply ctx_wf_app; [assumption|apply ctx_wf_zip; assumption]).
       destruct (HCcl st _ bty Tb I Hwc' Hwb Hkb) as [body' [st1 Hb]].
-      destruct (HScl st _ bty body' st1 (ctx_wf_names_ok _ Hwc') (wf_ty_names_ok ts fs W _ Hwb) Tb I Hb) as [_ [I1 [S1 G1]]].
+      destruct (HScl st _ bty body' st1 (ctx_wf_names_ok _ Hwc') (wf_ty_names_ok ts fs W _ Hwb) Tb I Hb) as [_ [I1 [S1 [G1 _]]]].
       rewrite Hb. simpl.
       inversion Hnd as [|? ? Hnotin Hnd']; subst.
       destruct (IH pcls' st1 ctx HSr HCr Hwc (tables_same _ _ _ _ Tb S1) I1 Htd (conj Hlt Hwt) Hpol HT (G1 _ Hinst) Hnd')
